@@ -315,7 +315,33 @@ func H_C11_float(v *V) {
 	}
 }
 
+// H_C11_floatsyn: acceptance of short symbolic float texts (the scanner
+// functions of strconv are interpreted symbolically; values are not tracked).
+func H_C11_floatsyn(v *V) {
+	V := v.String(v.Shape("lv"))
+	v.Assume(!(len(V) > 0 && V[0] == '"'))
+	ok, outside := refFloatSyntax(V)
+	v.Assume(!outside)
+	d := &c11Floats{}
+	p := NewNamedParser("prog", None)
+	p.AddGroup("Application Options", "", d)
+	name := []string{"f32", "f64"}[v.Choice(2)]
+	_, err := p.ParseArgs([]string{"--" + name + "=" + V})
+	vObsErr(v, err)
+	if err == nil {
+		v.Reach("accepted")
+	} else {
+		v.Reach("rejected")
+	}
+	v.Assert((err == nil) == ok, "a short text is accepted as a float iff it has floating point syntax")
+	if err != nil {
+		t, typed := vErrType(err)
+		v.Assert(typed && t == ErrMarshal, "a rejected float is ErrMarshal")
+	}
+}
+
 func init() {
+	vHarnesses["H_C11_floatsyn"] = H_C11_floatsyn
 	vHarnesses["H_C11_float"] = H_C11_float
 	vHarnesses["H_C11_int"] = H_C11_int
 	vHarnesses["H_C11_other"] = H_C11_other
